@@ -81,6 +81,9 @@ type L2 struct {
 	// Shadow: see L1.Shadow.
 	Shadow   func(br *L2)
 	isShadow bool
+	// RestartEvery > 0: the process "restarts" (Restart) before every n-th transaction.
+	RestartEvery int
+	delivered    int
 }
 
 // L2Opts configures a new L2.
@@ -100,10 +103,20 @@ func NewL2(opts L2Opts) *L2 {
 		panic(err)
 	}
 	ctx := sdk.NewContext(ms, tmproto.Header{Height: 1, Time: GenesisTime, ChainID: L2ChainID}, opts.CheckTx, log.NewNopLogger())
+	c := buildL2(ctx, keys, NewFaultCtl(), true)
+	if opts.Params != nil {
+		if err := c.K.SetParams(ctx, *opts.Params); err != nil {
+			panic(err)
+		}
+	}
+	return c
+}
 
+// buildL2 constructs every keeper, router and querier over the given stores; init=false writes nothing (process start
+// on an existing database).
+func buildL2(ctx sdk.Context, keys map[string]*storetypes.KVStoreKey, f *FaultCtl, init bool) *L2 {
 	enc := MakeEncodingConfig(L2Basics)
 	authority := authtypes.NewModuleAddress(opchildtypes.ModuleName).String()
-	f := NewFaultCtl()
 
 	maccPerms := map[string][]string{
 		authtypes.FeeCollectorName:     nil,
@@ -118,8 +131,10 @@ func NewL2(opts L2Opts) *L2 {
 		authcodec.NewBech32Codec(sdk.GetConfig().GetBech32AccountAddrPrefix()),
 		sdk.GetConfig().GetBech32AccountAddrPrefix(), authority,
 	)
-	if err := ak.Params.Set(ctx, authtypes.DefaultParams()); err != nil {
-		panic(err)
+	if init {
+		if err := ak.Params.Set(ctx, authtypes.DefaultParams()); err != nil {
+			panic(err)
+		}
 	}
 	blocked := map[string]bool{}
 	for acc := range maccPerms {
@@ -127,8 +142,10 @@ func NewL2(opts L2Opts) *L2 {
 	}
 	bk := bankkeeper.NewBaseKeeper(enc.Codec, runtime.NewKVStoreService(keys[banktypes.StoreKey]),
 		AcctProxy{ak, f, "bank.acct"}, blocked, authority, ctx.Logger())
-	if err := bk.SetParams(ctx, banktypes.DefaultParams()); err != nil {
-		panic(err)
+	if init {
+		if err := bk.SetParams(ctx, banktypes.DefaultParams()); err != nil {
+			panic(err)
+		}
 	}
 
 	router := baseapp.NewMsgServiceRouter()
@@ -158,15 +175,20 @@ func NewL2(opts L2Opts) *L2 {
 	msgServer := opchildkeeper.NewMsgServerImpl(k)
 	opchildtypes.RegisterMsgServer(router, msgServer)
 
-	c := &L2{Ctx: ctx, Keys: keys, Enc: enc, AK: ak, BK: bk, OK: &ok, K: k, MS: msgServer, Q: opchildkeeper.NewQuerier(k),
+	return &L2{Ctx: ctx, Keys: keys, Enc: enc, AK: ak, BK: bk, OK: &ok, K: k, MS: msgServer, Q: opchildkeeper.NewQuerier(k),
 		Router: router, Authority: authority, F: f, SendHook: sendHook}
+}
 
-	if opts.Params != nil {
-		if err := k.SetParams(ctx, *opts.Params); err != nil {
-			panic(err)
-		}
+// Restart replaces every keeper, router and querier by freshly constructed ones over the same stores (a process
+// restart). Executor-change plans are registered by the application at start-up, so the table is carried over.
+func (c *L2) Restart() {
+	n := buildL2(c.Ctx, c.Keys, c.F, false)
+	for h, p := range c.K.ExecutorChangePlans {
+		n.K.ExecutorChangePlans[h] = p
 	}
-	return c
+	*n.SendHook = *c.SendHook
+	c.Enc, c.AK, c.BK, c.OK, c.K, c.MS, c.Q, c.Router, c.SendHook = n.Enc, n.AK, n.BK, n.OK, n.K, n.MS, n.Q, n.Router, n.SendHook
+	ShadowStats.Restarts.Add(1)
 }
 
 // InitGenesis runs the module's InitGenesis and seeds the engine model with the result.
@@ -253,7 +275,16 @@ func (c *L2) runShadow() {
 	c.Shadow(br)
 }
 
+func (c *L2) maybeRestart() {
+	if c.RestartEvery > 0 && !c.isShadow {
+		if c.delivered++; c.delivered%c.RestartEvery == 0 {
+			c.Restart()
+		}
+	}
+}
+
 func (c *L2) Deliver(msgs ...sdk.Msg) Result {
+	c.maybeRestart()
 	c.runShadow()
 	if c.Speculate {
 		ShadowStats.Speculated.Add(1)
@@ -267,6 +298,7 @@ func (c *L2) Deliver(msgs ...sdk.Msg) Result {
 }
 
 func (c *L2) DeliverGas(gasLimit uint64, msgs ...sdk.Msg) Result {
+	c.maybeRestart()
 	c.runShadow()
 	if c.Speculate {
 		ShadowStats.Speculated.Add(1)
